@@ -192,6 +192,15 @@ def run(ctx):
         lp = os.path.join(where, "lnk")
         text = outside if t % 4 == 0 else os.path.relpath(outside, where)
         os.symlink(text, lp)
+        if t % 3 != 1:
+            # ... links that lead nowhere (two in one directory: whatever the readdir order, an entry follows one of them) and a link
+            # to a regular file: listed, never entered, and nothing else is lost because of them
+            dd = rng.choice(dirs)
+            for nm_, tg_ in (("gone1", "nowhere"), ("gone2", "../also/nowhere"), ("to_file", os.path.join(outside, "inner.txt"))):
+                if not os.path.lexists(os.path.join(dd, nm_)):
+                    os.symlink(tg_, os.path.join(dd, nm_))
+            if not os.path.lexists(os.path.join(root, "gone0")):
+                os.symlink("nowhere-at-all", os.path.join(root, "gone0"))
         if t % 2 == 0 and len(dirs) > 1:
             # ... and a link to a directory INSIDE the root, which the walk also reaches by its own path: still every entry once
             inner = rng.choice([d_ for d_ in dirs if d_ != root])
